@@ -5,7 +5,7 @@ from spec import c03 as S
 from checks.nskel import SKELETONS, LONG
 
 BOUNDS = {
-    "quick": "18 URL skeletons x every hole string of length 0..1 (0..2 for the query-escape, redirect and the two path holes after a '%') over all code points (hex digits only for the two holes that follow a '%' in the path) x quoted / strip_suffix in {F,T}; platform_aware=False",
+    "quick": "19 URL skeletons x every hole string of length 0..1 (0..2 for the query-escape, redirect and the two path holes after a '%') over all code points (hex digits only for the two holes that follow a '%' in the path) x quoted / strip_suffix in {F,T}; platform_aware=False",
     "thorough": "holes of length 0..2 (3 for path / query / fragment / redirect holes)",
 }
 STUBS = ["see C01 (urlsplit etc. interpreted; UTF-8 / quote / table models; NFKC and idna cuts)"]
@@ -23,7 +23,7 @@ def hier(st, skel, n, flag):
     run_prop(st, "fingerprint_after_normalize", S.fingerprint_after_normalize, u, flag, False)
 
 
-N2 = ("path-escape-index", "path-escape-amp", "query-escape", "redirect")
+N2 = ("path-escape-index", "path-escape-amp", "query-escape", "redirect", "no-scheme-port")
 
 
 def items(tier):
